@@ -994,6 +994,8 @@ pub fn check(property: &str, tier: &str) -> i32 {
             println!("  {k}: writer={} reader={}", v.0, v.1);
         }
     }
+    // the launcher's part of the streaming path (real processes through the real create_task_future)
+    st.machinery.extend(crate::launcher::run_stream(&mut report));
     if !st.machinery.is_empty() {
         for m in st.machinery.iter().take(10) {
             eprintln!("machinery: {m}");
